@@ -55,17 +55,17 @@ Definition dec_tbl (decin : stream) (t : list (N * dres)) (c : codec) (s : strea
 
 Inductive vcase :=
 (* end-to-end, full bytes *)
-| EC (type : string) (level : Z) (ce : list string) (body : option bytes) (rerr cerr : bool)
+| EC (type : string) (level : Z) (ce : list string) (body : option bytes) (chunked rerr cerr : bool)
      (max : Z) (algs : option (list string)) (custom : list (string * N))
      (enc : list ((N * Z) * bytes)) (decin : stream) (dect : list (N * dres))
      (* observed: client (0 sent / 1 configuration refused / 2 RoundTrip error, nothing sent); wire
         header values and body; server outcome (0 handler ran / 1 rejected / 2 panicked), status,
         and what the handler saw *)
-     (o_client : N) (o_wce : list string) (o_wbody : bytes)
+     (o_client : N) (o_wce : list string) (o_wbody : bytes) (o_wcl : Z)
      (o_kind : N) (o_status : Z) (o_hce : list string) (o_cl : Z) (o_data : bytes) (o_err : N)
 (* server only, sizes only (large bodies) *)
 | LC (max : Z) (algs : option (list string)) (custom : list (string * N))
-     (ce : list string) (n : Z) (ldect : list (N * ldres))
+     (ce : list string) (n cl : Z) (ldect : list (N * ldres))
      (o_kind : N) (o_status : Z) (o_hce : list string) (o_cl : Z) (o_len : Z) (o_err : N).
 
 (* canonical observable of a server outcome *)
@@ -99,38 +99,38 @@ Definition ldec_tbl (t : list (N * ldres)) (c : codec) : ldres :=
 (* the model's answer for a case: the wire request (None = configuration refused) and the outcome *)
 Definition model_wire (c : vcase) : cres :=
   match c with
-  | EC type level ce body rerr cerr _ _ _ enc _ _ _ _ _ _ _ _ _ _ _ =>
+  | EC type level ce body chunked rerr cerr _ _ _ enc _ _ _ _ _ _ _ _ _ _ _ _ =>
       client (enc_tbl (body_bytes body) enc) {| c_type := type; c_level := level |}
-             {| q_ce := ce; q_body := body; q_rerr := rerr; q_cerr := cerr |}
-  | LC _ _ _ _ _ _ _ _ _ _ _ _ => CRefused
+             {| q_ce := ce; q_body := body; q_stream := chunked; q_rerr := rerr; q_cerr := cerr |}
+  | LC _ _ _ _ _ _ _ _ _ _ _ _ _ => CRefused
   end.
 
 (* (client outcome, wire) , server observable *)
-Definition model_out (c : vcase) : (N * option (list string * bytes)) * (obs + lobs) :=
+Definition model_out (c : vcase) : (N * option (list string * bytes * Z)) * (obs + lobs) :=
   match c with
-  | EC type level ce body rerr cerr max algs custom enc decin dect _ _ _ _ _ _ _ _ _ =>
+  | EC type level ce body chunked rerr cerr max algs custom enc decin dect _ _ _ _ _ _ _ _ _ _ =>
       let sc := {| s_max := max; s_algs := algs; s_custom := custom |} in
       match model_wire c with
       | CRefused => ((1%N, None), inl (obs_of Panicked))
       | CError => ((2%N, None), inl (obs_of Panicked))
-      | CSent w => ((0%N, Some (w.(w_ce), w.(w_body))), inl (obs_of (server (dec_tbl decin dect) cdec_fixed sc w)))
+      | CSent w => ((0%N, Some (w.(w_ce), w.(w_body), w.(w_cl))), inl (obs_of (server (dec_tbl decin dect) cdec_fixed sc w)))
       end
-  | LC max algs custom ce n ldect _ _ _ _ _ _ =>
+  | LC max algs custom ce n cl ldect _ _ _ _ _ _ =>
       let sc := {| s_max := max; s_algs := algs; s_custom := custom |} in
-      ((0%N, None), inr (lobs_of (lserver sc (ldec_tbl ldect) (lcdec_fixed (lmax_bytes (eff_max sc) (n, E_EOF))) ce n)))
+      ((0%N, None), inr (lobs_of (lserver sc (ldec_tbl ldect) (lcdec_fixed (lmax_bytes (eff_max sc) (n, E_EOF))) ce n cl)))
   end.
 
 Definition check_case (c : vcase) : bool :=
   match c with
-  | EC _ _ _ _ _ _ _ _ _ _ _ _ o_client o_wce o_wbody o_kind o_status o_hce o_cl o_data o_err =>
+  | EC _ _ _ _ _ _ _ _ _ _ _ _ _ o_client o_wce o_wbody o_wcl o_kind o_status o_hce o_cl o_data o_err =>
       match model_out c with
       | ((k, None), _) => N.eqb k o_client && negb (N.eqb o_client 0)
-      | ((k, Some (wce, wbody)), inl o) =>
-          N.eqb k o_client && strs_eqb wce o_wce && bytes_eqb wbody o_wbody
+      | ((k, Some (wce, wbody, wcl)), inl o) =>
+          N.eqb k o_client && strs_eqb wce o_wce && bytes_eqb wbody o_wbody && Z.eqb wcl o_wcl
           && obs_eqb o (o_kind, o_status, o_hce, o_cl, o_data, o_err)
       | _ => false
       end
-  | LC _ _ _ _ _ _ o_kind o_status o_hce o_cl o_len o_err =>
+  | LC _ _ _ _ _ _ _ o_kind o_status o_hce o_cl o_len o_err =>
       match model_out c with
       | (_, inr o) => lobs_eqb o (o_kind, o_status, o_hce, o_cl, o_len, o_err)
       | _ => false
